@@ -363,6 +363,26 @@ def d2(chk, repo):
                 outs = [x.tmpl for x in (po.items or [])] if po is not None and po.items is not None else []
                 if (s.name == "rotate") != (outs == ["mesh"]):
                     chk.violation("D2", "GeometryMesh promoted mesh [%s] %s" % (tag, s.name), g.where, "%s promotes outputs %s; only the last transformation's mesh is the group's mesh" % (s.name, outs))
+            # every transformation that has a reference-axis option receives the group's value
+            ref_vals = {}
+            for s in subs:
+                has_opt = False
+                try:
+                    mm = component_model(repo, s.cls)
+                    has_opt = any(e.kind == "optdecl" and e.d.get("name") == "ref_axis_pos" for rs in mm.runs.values() for r_ in rs for e in r_.events)
+                except Exception:
+                    pass
+                if not has_opt:
+                    continue
+                rv = (s.ctor_kwargs or {}).get("ref_axis_pos")
+                key = "GeometryMesh %s reference axis [%s]" % (s.name, tag)
+                if rv is None:
+                    chk.violation("D2", key, g.where, "%s has a ref_axis_pos option but GeometryMesh does not pass the surface's reference-axis position to it: it acts about its default axis (quarter chord) instead of the user's axis" % s.cls.name)
+                else:
+                    ref_vals[s.name] = (rv.cx, str(rv.sym))
+                    chk.ok("D2", key, g.where, "ref_axis_pos passed (%s)" % (rv.cx or rv.sym))
+            if len(set(ref_vals.values())) > 1:
+                chk.violation("D2", "GeometryMesh reference axis consistent [%s]" % tag, g.where, "the transformations receive different reference-axis positions: %s" % ref_vals)
             for s in subs:
                 cn = s.cls.name
                 v = (s.ctor_kwargs or {}).get("val")
